@@ -439,7 +439,8 @@ func applyLocalityWeights(
 			for locality, weight := range localityWeightSetting.To {
 				// index -> original weight
 				destLocMap := map[int]uint32{}
-				totalWeight := uint32(0)
+				// summed in 64 bits: the weights of the matched localities together may exceed uint32
+				totalWeight := uint64(0)
 				for i, ep := range loadAssignment.Endpoints {
 					if misMatched.Contains(i) {
 						if util.LocalityMatch(ep.Locality, locality) {
@@ -449,14 +450,15 @@ func applyLocalityWeights(
 							} else {
 								destLocMap[i] = 1
 							}
-							totalWeight += destLocMap[i]
+							totalWeight += uint64(destLocMap[i])
 						}
 					}
 				}
 				// in case wildcard dest matching multi groups of endpoints
 				// the load balancing weight for a locality is divided by the sum of the weights of all localities
 				for index, originalWeight := range destLocMap {
-					destWeight := float64(originalWeight*weight) / float64(totalWeight)
+					// multiplied as floats: the uint32 product wraps around for large locality weights
+					destWeight := float64(originalWeight) * float64(weight) / float64(totalWeight)
 					if destWeight > 0 {
 						loadAssignment.Endpoints[index].LoadBalancingWeight = &wrappers.UInt32Value{
 							Value: uint32(math.Ceil(destWeight)),
